@@ -39,9 +39,11 @@ pub fn check(_ctx: &Ctx, st: &mut Stats, c: &Case) {
     let ia = p.angles[&Prayer::Isha];
     let mut any_invalid = false;
     let mut any_decided = false;
-    for pr in [Prayer::Fajr, Prayer::Shurooq, Prayer::Asr, Prayer::Maghrib, Prayer::Isha] {
+    let ima = p.angles[&Prayer::Imsaak];
+    for pr in [Prayer::Imsaak, Prayer::Fajr, Prayer::Shurooq, Prayer::Asr, Prayer::Maghrib, Prayer::Isha] {
         let a_of = |d: f64| -> f64 {
             match pr {
+                Prayer::Imsaak => -(fa + ima),
                 Prayer::Fajr => -fa,
                 Prayer::Isha => -ia,
                 Prayer::Asr => (1.0 / (k + (lat - d).abs().to_radians().tan())).atan().to_degrees(),
@@ -115,6 +117,8 @@ fn gen_case(r: &mut Rng) -> Case {
         p.fajr_angle = Some(X(r.range(9.0, 21.0)));
         p.isha_angle = Some(X(r.range(9.0, 21.0)));
     }
+    // whether an event exists must not depend on the rounding mode
+    p.mode = r.int(0, 3) as usize;
     Case {
         site: Site::new(la, lon, gen::any_elev(r), gen::gmt_near(r, lon, 3.0)),
         date: d2s(if r.chance(0.3) { hostile_date(r) } else { rand_date(r) }),
